@@ -2,6 +2,7 @@
 
 import os
 from contextlib import contextmanager
+from contextvars import ContextVar
 from copy import copy
 from dataclasses import dataclass
 from enum import Enum
@@ -70,7 +71,13 @@ def _config_from_env_vars():
 
 # this config variable should be accessible globally
 CONFIG = _config_from_env_vars()
-_CONTEXT_CONFIG = copy(CONFIG)
+# The context configuration is kept in a context variable so that concurrent
+# validation calls (threads, asyncio tasks) cannot observe or overwrite each
+# other's temporary settings. ``None`` means "no context override": the global
+# configuration applies.
+_CONTEXT_CONFIG: ContextVar[Optional[PanderaConfig]] = ContextVar(
+    "pandera_context_config", default=None
+)
 
 
 @contextmanager
@@ -81,28 +88,27 @@ def config_context(
     keep_cached_dataframe: Optional[bool] = None,
 ):
     """Temporarily set pandera config options to custom settings."""
-    _outer_config_ctx = get_config_context(validation_depth_default=None)
+    _context_config = get_config_context(validation_depth_default=None)
 
+    if validation_enabled is not None:
+        _context_config.validation_enabled = validation_enabled
+    if validation_depth is not None:
+        _context_config.validation_depth = validation_depth
+    if cache_dataframe is not None:
+        _context_config.cache_dataframe = cache_dataframe
+    if keep_cached_dataframe is not None:
+        _context_config.keep_cached_dataframe = keep_cached_dataframe
+
+    token = _CONTEXT_CONFIG.set(_context_config)
     try:
-        if validation_enabled is not None:
-            _CONTEXT_CONFIG.validation_enabled = validation_enabled
-        if validation_depth is not None:
-            _CONTEXT_CONFIG.validation_depth = validation_depth
-        if cache_dataframe is not None:
-            _CONTEXT_CONFIG.cache_dataframe = cache_dataframe
-        if keep_cached_dataframe is not None:
-            _CONTEXT_CONFIG.keep_cached_dataframe = keep_cached_dataframe
-
         yield
     finally:
-        reset_config_context(_outer_config_ctx)
+        _CONTEXT_CONFIG.reset(token)
 
 
 def reset_config_context(conf: Optional[PanderaConfig] = None):
     """Reset the context configuration to the global configuration."""
-    # pylint: disable=global-statement
-    global _CONTEXT_CONFIG
-    _CONTEXT_CONFIG = copy(conf or CONFIG)
+    _CONTEXT_CONFIG.set(copy(conf or CONFIG))
 
 
 def get_config_global() -> PanderaConfig:
@@ -116,7 +122,7 @@ def get_config_context(
     ] = ValidationDepth.SCHEMA_AND_DATA,
 ) -> PanderaConfig:
     """Gets the configuration context."""
-    config = copy(_CONTEXT_CONFIG)
+    config = copy(_CONTEXT_CONFIG.get() or CONFIG)
 
     if config.validation_depth is None and validation_depth_default:
         config.validation_depth = validation_depth_default
